@@ -63,6 +63,133 @@ fn check_yuv_grey(c: &YuvConfig, u8s: bool, lumas: &[u16], st: &mut Stats) -> Re
     Ok(())
 }
 
+/// part (a2): grey pixels whose left neighbour is a coloured pixel related to them: the grey triple with +-2^a on
+/// one plane and +-2^b on another (or on one plane only). Only the grey positions are judged.
+fn check_grey_after_neighbours(c: &YuvConfig, u8s: bool, st: &mut Stats) -> Result<(), Violation> {
+    let d = c.bit_depth as u32;
+    let max = (1i64 << d) - 1;
+    let half = 1i64 << (d - 1);
+    let k = 1i64 << (d - 8);
+    let (black, white) = if c.full_range { (0i64, max) } else { (16 * k, 235 * k) };
+    let greys = [black, white, half, black + 1, white - 1, max / 3, (2 * max) / 3, (max / 7) * 5];
+    let mut codes: Vec<[u16; 3]> = Vec::new();
+    for g in greys {
+        let base = [g, half, half];
+        let mut push = |p: [i64; 3]| {
+            if p.iter().all(|v| (0..=max).contains(v)) && p != base {
+                // (an unrelated pixel first: otherwise the neighbour itself follows the same grey of the previous triple)
+                codes.push([(max - g) as u16, (half + 3) as u16, (half - 5) as u16]);
+                codes.push([p[0] as u16, p[1] as u16, p[2] as u16]);
+                codes.push([g as u16, half as u16, half as u16]);
+            }
+        };
+        for i in 0..3 {
+            for a in 0..d {
+                for sa in [1i64, -1] {
+                    let mut p = base;
+                    p[i] += sa << a;
+                    push(p);
+                    for j in (i + 1)..3 {
+                        for b in 0..d {
+                            for sb in [1i64, -1] {
+                                let mut q = p;
+                                q[j] += sb << b;
+                                push(q);
+                            }
+                        }
+                    }
+                }
+            }
+        }
+    }
+    let mk = |msg: String, at: usize| Violation {
+        signature: format!("C16:yuv-grey-after-neighbour:{}:{}", mc_name(c.matrix_coefficients), if c.full_range { "full" } else { "limited" }),
+        message: msg,
+        case: json!({"prop":"C16","part":"yuv-pairs","cfg":cfg_json(c),"storage": if u8s {"u8"} else {"u16"},"codes":[codes[at - 1], codes[at]]}),
+    };
+    let n = codes.len();
+    let dec = |codes: &[[u16; 3]]| -> Result<Vec<[f32; 3]>, String> {
+        fn go<T: Pixel>(c: &YuvConfig, codes: &[[u16; 3]]) -> Result<Vec<[f32; 3]>, String> {
+            let yuv = Yuv::<T>::new(frame444_pads::<T>(codes, codes.len(), 1, [(0, 0); 3]), *c).map_err(|e| format!("Yuv::new: {e:?}"))?;
+            Ok(Rgb::try_from(&yuv).map_err(|e| format!("decode: {e:?}"))?.into_data())
+        }
+        match catch(|| if u8s { go::<u8>(c, codes) } else { go::<u16>(c, codes) }) {
+            Ok(r) => r,
+            Err(p) => Err(format!("panic: {p}")),
+        }
+    };
+    let rgb = dec(&codes).map_err(|e| mk(e, 1))?;
+    for i in (2..n).step_by(3) {
+        let p = rgb[i];
+        let spread = f64::from(p[0].max(p[1]).max(p[2])) - f64::from(p[0].min(p[1]).min(p[2]));
+        let y = codes[i][0] as i64;
+        let bad_black = y == black && p != [0.0, 0.0, 0.0];
+        let bad_white = y == white && (0..3).any(|j| !((f64::from(p[j]) - 1.0).abs() <= 1e-6));
+        if !(spread <= 5e-7) || bad_black || bad_white {
+            return Err(mk(format!("grey code {:?} right after the pixel {:?} decodes to {:?} (spread {:e}; grey within 5e-7, nominal black exactly 0 and nominal white within 1e-6 are required), cfg {}", codes[i], codes[i - 1], p, spread, cfg_json(c)), i));
+        }
+    }
+    st.comparisons += (n / 3) as u64;
+    Ok(())
+}
+
+fn replay_pairs(v: &Value) -> Result<(), String> {
+    let c = crate::api::cfg_from_json(v.get("cfg").ok_or("cfg")?).ok_or("cfg")?;
+    let u8s = v.get("storage").and_then(|s| s.as_str()) == Some("u8");
+    check_grey_after_neighbours(&c, u8s, &mut Stats::new()).map_err(|v| v.message)
+}
+
+/// part (a3): a neutral subsampled frame decoded right after a coloured frame of the same width (other height) on the
+/// same thread: whatever the previous decode left behind (row buffers, tables), grey must stay grey
+fn check_grey_after_frame(c: &YuvConfig, u8s: bool, w: usize, h_prev: usize, h: usize, st: &mut Stats) -> Result<(), Violation> {
+    let mk = |msg: String| Violation {
+        signature: format!("C16:yuv-grey-after-frame:{}{}", c.subsampling_x, c.subsampling_y),
+        message: msg,
+        case: json!({"prop":"C16","part":"yuv-after-frame","cfg":cfg_json(c),"storage": if u8s {"u8"} else {"u16"},"w":w,"h_prev":h_prev,"h":h}),
+    };
+    let d = c.bit_depth as u32;
+    let max = (1u32 << d) - 1;
+    let half = (1u32 << (d - 1)) as u16;
+    let ss = (c.subsampling_x, c.subsampling_y);
+    let planes = |h: usize, grey: bool| -> [Vec<u16>; 3] {
+        let (cw, ch) = (w >> ss.0, h >> ss.1);
+        let y: Vec<u16> = (0..w * h).map(|i| ((i as u32 * 7919 + 13) % (max + 1)) as u16).collect();
+        let u: Vec<u16> = (0..cw * ch).map(|i| if grey { half } else { ((i as u32 * 104729 + 7) % (max + 1)) as u16 }).collect();
+        let v: Vec<u16> = (0..cw * ch).map(|i| if grey { half } else { ((i as u32 * 1299709 + 3) % (max + 1)) as u16 }).collect();
+        [y, u, v]
+    };
+    fn go<T: Pixel>(c: &YuvConfig, w: usize, h: usize, p: &[Vec<u16>; 3]) -> Result<Vec<[f32; 3]>, String> {
+        let f = crate::conv::yuv_frame::<T>(w, h, (c.subsampling_x, c.subsampling_y), [(0, 0); 3], p, 0);
+        let yuv = Yuv::<T>::new(f, *c).map_err(|e| format!("Yuv::new: {e:?}"))?;
+        Ok(Rgb::try_from(&yuv).map_err(|e| format!("decode: {e:?}"))?.into_data())
+    }
+    let run = |h: usize, grey: bool| -> Result<Vec<[f32; 3]>, String> {
+        let p = planes(h, grey);
+        match catch(|| if u8s { go::<u8>(c, w, h, &p) } else { go::<u16>(c, w, h, &p) }) {
+            Ok(r) => r,
+            Err(pn) => Err(format!("panic: {pn}")),
+        }
+    };
+    run(h_prev, false).map_err(|e| mk(format!("the coloured frame failed: {e}")))?;
+    let rgb = run(h, true).map_err(mk)?;
+    for (i, p) in rgb.iter().enumerate() {
+        let spread = f64::from(p[0].max(p[1]).max(p[2])) - f64::from(p[0].min(p[1]).min(p[2]));
+        if !(spread <= 5e-7) {
+            return Err(mk(format!("pixel ({},{}) of a neutral {w}x{h} frame (chroma 2^(n-1), subsampling {:?}) decoded right after a coloured {w}x{h_prev} frame on the same thread is {:?}: spread {:e} > 5e-7; cfg {}", i % w, i / w, ss, p, spread, cfg_json(c))));
+        }
+    }
+    st.comparisons += rgb.len() as u64;
+    Ok(())
+}
+
+fn replay_after_frame(v: &Value) -> Result<(), String> {
+    let c = crate::api::cfg_from_json(v.get("cfg").ok_or("cfg")?).ok_or("cfg")?;
+    let u8s = v.get("storage").and_then(|s| s.as_str()) == Some("u8");
+    let g = |k: &str| v.get(k).and_then(|x| x.as_u64()).map(|x| x as usize).ok_or_else(|| k.to_string());
+    let (w, hp, h) = (g("w")?, g("h_prev")?, g("h")?);
+    std::thread::spawn(move || check_grey_after_frame(&c, u8s, w, hp, h, &mut Stats::new()).map_err(|v| v.message)).join().map_err(|_| "panicked".to_string())?
+}
+
 fn greys_px(vals: &[f32]) -> Vec<[f32; 3]> {
     vals.iter().map(|g| [*g, *g, *g]).collect()
 }
@@ -221,6 +348,63 @@ pub fn run(ctx: &Ctx, st: &mut Stats) -> Vec<Violation> {
         None
     }));
     st.exhaustive_parts.push("every luma code at every depth 8..16 (130,816 codes) x 7 matrices x 2 ranges with neutral chroma".into());
+    if !out.is_empty() {
+        return out;
+    }
+    // (a2) grey pixels right after related coloured pixels, same job list
+    out.extend(par_sweep(ctx, st, jobs.len() as u64, |lo, hi, st| {
+        for j in lo..hi {
+            let (mc, full, depth, u8s) = jobs[j as usize];
+            let c = cfg(mc, TC::BT1886, CP::BT709, depth, full, (0, 0));
+            if let Err(v) = check_grey_after_neighbours(&c, u8s, st) {
+                return Some(v);
+            }
+            st.evaluations += 1;
+            st.nontrivial_by_construction += 1;
+            st.class("grey_after_related_neighbour_images", 1);
+        }
+        None
+    }));
+    if !out.is_empty() {
+        return out;
+    }
+    // (a3) neutral subsampled frames right after coloured frames of the same width, each history on a fresh thread
+    {
+        let mut hj = Vec::new();
+        for ss in [(1u8, 1u8), (0, 1), (1, 0), (2, 2), (2, 0)] {
+            for w in [128usize, 256, 136, 64] {
+                for (hp, h) in [(2usize, 4usize), (4, 4), (4, 8), (2, 2), (8, 4), (4, 2)] {
+                    for (depth, u8s) in [(8u8, true), (10, false)] {
+                        if hp % (1 << ss.1) == 0 && h % (1 << ss.1) == 0 {
+                            hj.push((ss, w, hp, h, depth, u8s));
+                        }
+                    }
+                }
+            }
+        }
+        out.extend(par_sweep(ctx, st, hj.len() as u64, |lo, hi, st| {
+            for j in lo..hi {
+                let (ss, w, hp, h, depth, u8s) = hj[j as usize];
+                let c = cfg(STD_MC[(j % 7) as usize], TC::BT1886, CP::BT709, depth, j % 2 == 0, ss);
+                let r = std::thread::scope(|sc| {
+                    sc.spawn(|| {
+                        let mut local = Stats::new();
+                        check_grey_after_frame(&c, u8s, w, hp, h, &mut local).map(|_| local.comparisons)
+                    })
+                    .join()
+                });
+                match r {
+                    Ok(Ok(n)) => st.comparisons += n,
+                    Ok(Err(v)) => return Some(v),
+                    Err(_) => return Some(Violation { signature: "C16:panic".into(), message: "grey-after-frame history panicked".into(), case: json!({"prop":"C16"}) }),
+                }
+                st.evaluations += 1;
+                st.nontrivial_by_construction += 1;
+                st.class("grey_frame_after_coloured_frame_histories", 1);
+            }
+            None
+        }));
+    }
     // real-size neutral frames (above 2^21 pixels), the two ranges of a depth decoded back to back on one
     // thread in both orders: black exactly 0, white 1, greys grey, whatever was decoded before
     let big: Vec<(usize, usize)> = if ctx.quick() { vec![(1449, 1449)] } else { vec![(1449, 1449), (2049, 2049), (3841, 2161)] };
@@ -342,6 +526,8 @@ pub fn replay(v: &Value) -> Result<(), String> {
             let lumas: Vec<u16> = serde_json::from_value(v.get("luma").ok_or("luma")?.clone()).map_err(|e| e.to_string())?;
             check_yuv_grey(&c, v.get("storage").and_then(|s| s.as_str()) == Some("u8"), &lumas, &mut st).map_err(|v| v.message)
         }
+        Some("yuv-pairs") => replay_pairs(v),
+        Some("yuv-after-frame") => replay_after_frame(v),
         Some("linear") => {
             let g: Vec<f32> = v.get("grey").and_then(|g| g.as_array()).ok_or("grey")?.iter().filter_map(j2f).collect();
             check_linear_greys(&g, &mut st).map_err(|v| v.message)
@@ -350,4 +536,4 @@ pub fn replay(v: &Value) -> Result<(), String> {
     }
 }
 
-pub const RULE: &str = "enumeration: (a) every luma code at every depth 8..16 x 7 matrices x 2 ranges (u8 and u16 at 8 bit) with chroma 2^(n-1): RGB spread <= 5e-7, nominal black exactly 0, nominal white within 1e-6; (b) the 12 non-log curves x 2 directions at 0 (within 1e-6) and 1 (within the C03 budget); (c-e) linear grey levels (quick: 2^20+1 levels k/2^20 and every 4099th f32 bit pattern of [0,1]; thorough: every f32 in [0,1]) through XYB (|X|, |Y-B| <= 1e-6, black -> 0; both as pure grey ramps and embedded in images with coloured pixels and repeated grey levels), HSL (H=0, S=0, L=grey) and the 22 primaries conversions (spread <= 1e-5*max(1,|v|)); plus real-size neutral frames and linear grey images (above 2^21 pixels; thorough: above 2^22 and UHD+1), the two ranges of a depth decoded back to back; a case = one ramp / one block of grey levels / one frame; all cases are distinct by construction and all are non-trivial (they exercise the neutral axis, which is the subject of the property)";
+pub const RULE: &str = "enumeration: (a) every luma code at every depth 8..16 x 7 matrices x 2 ranges (u8 and u16 at 8 bit) with chroma 2^(n-1): RGB spread <= 5e-7, nominal black exactly 0, nominal white within 1e-6; (a2) the same for grey pixels placed right after a related coloured pixel (the grey triple with +-2^a on one plane and +-2^b on another, all a, b, planes and signs; 8 grey levels incl. black and white per config); (a3) neutral 4:2:0 / 4:4:0 / 4:2:2 / 4:1:0 / 4:1:1 frames of width 64..256 decoded right after a coloured frame of the same width and another height on the same (fresh) thread; (b) the 12 non-log curves x 2 directions at 0 (within 1e-6) and 1 (within the C03 budget); (c-e) linear grey levels (quick: 2^20+1 levels k/2^20 and every 4099th f32 bit pattern of [0,1]; thorough: every f32 in [0,1]) through XYB (|X|, |Y-B| <= 1e-6, black -> 0; both as pure grey ramps and embedded in images with coloured pixels and repeated grey levels), HSL (H=0, S=0, L=grey) and the 22 primaries conversions (spread <= 1e-5*max(1,|v|)); plus real-size neutral frames and linear grey images (above 2^21 pixels; thorough: above 2^22 and UHD+1), the two ranges of a depth decoded back to back; a case = one ramp / one block of grey levels / one frame; all cases are distinct by construction and all are non-trivial (they exercise the neutral axis, which is the subject of the property)";
